@@ -228,3 +228,45 @@ Definition check_c11 (c : c11case) : bool :=
   list_eqb result_eqb rs (i_results c) &&
   list_eqb item_eqb (q_queue q) (i_final c) &&
   Z.eqb (q_timestep q) (i_timestep c).
+
+(* ---- several queues in one process: operations addressed to queue 0, 1, 2, ... interleaved in one
+   sequence.  A queue's state is its own array and _timestep and nothing else, and a result is a value:
+   an operation on queue i reads and writes queue i only, and what was returned earlier cannot change.
+   (That the implementation's queues share no state and that its returned lists stay what they were is
+   checked on every correspondence case: harness/c11.py keeps every returned list and re-reads it.) *)
+Definition mstep (qs : list queue) (a : nat * op) : list queue * result :=
+  let '(q', r) := step (nth (fst a) qs eq_new) (snd a) in (upd (fst a) q' qs, r).
+
+Fixpoint mrun (qs : list queue) (ops : list (nat * op)) : list queue * list result :=
+  match ops with
+  | [] => (qs, [])
+  | a :: r => let '(qs1, x) := mstep qs a in
+              let '(qs2, xs) := mrun qs1 r in (qs2, x :: xs)
+  end.
+
+(* the operations addressed to queue i, and the results they got *)
+Definition proj (i : nat) (ops : list (nat * op)) : list op :=
+  map snd (filter (fun a => Nat.eqb (fst a) i) ops).
+
+Fixpoint proj_results (i : nat) (ops : list (nat * op)) (rs : list result) : list result :=
+  match ops, rs with
+  | a :: ops', r :: rs' =>
+      if Nat.eqb (fst a) i then r :: proj_results i ops' rs' else proj_results i ops' rs'
+  | _, _ => []
+  end.
+
+Record c11multi := {
+  m_inits : list (list item);          (* EventQueue(events) for each queue *)
+  m_ops : list (nat * op);             (* (queue index, operation) *)
+  mi_results : list result;            (* recorded from the implementation, one per op; a returned list is
+                                          recorded as what it holds at the END of the sequence as well *)
+  mi_finals : list (list item * Z)     (* each queue's _queue array and _timestep at the end *)
+}.
+
+Definition final_eqb (a b : list item * Z) : bool :=
+  list_eqb item_eqb (fst a) (fst b) && Z.eqb (snd a) (snd b).
+
+Definition check_c11m (c : c11multi) : bool :=
+  let '(qs, rs) := mrun (map eq_init (m_inits c)) (m_ops c) in
+  list_eqb result_eqb rs (mi_results c) &&
+  list_eqb final_eqb (map (fun q => (q_queue q, q_timestep q)) qs) (mi_finals c).
